@@ -32,8 +32,11 @@ pub struct GenCfg {
     pub min_year: i32,
     pub max_year: i32,
     pub shuffle: bool,
-    /// tickers drawn from this many names
+    /// tickers drawn from a pool with prefix-related names (GOOG/GOOGL, BT/BTA, A/AA/AAA)
     pub wide_tickers: bool,
+    /// allow SPLIT/UNSPLIT/CAPRETURN/ACCUMULATION on a date that also has a BUY/SELL of the same
+    /// security (outside the domain of the model-based checks; used by order-independence checks)
+    pub same_day_events: bool,
 }
 
 impl GenCfg {
@@ -50,6 +53,7 @@ impl GenCfg {
             max_year: 2095,
             shuffle: false,
             wide_tickers: false,
+            same_day_events: false,
         }
     }
     pub fn secs(mut self, n: u8) -> Self {
@@ -81,6 +85,14 @@ impl GenCfg {
     }
     pub fn shuffle(mut self, s: bool) -> Self {
         self.shuffle = s;
+        self
+    }
+    pub fn wide(mut self, w: bool) -> Self {
+        self.wide_tickers = w;
+        self
+    }
+    pub fn same_day(mut self, w: bool) -> Self {
+        self.same_day_events = w;
         self
     }
     pub fn acts(mut self, n: usize) -> Self {
@@ -125,6 +137,7 @@ pub const TERM_RATIOS: [&str; 6] = ["2", "4", "5", "10", "1.25", "2.5"];
 pub const RESIDUE_RATIOS: [&str; 4] = ["3", "7", "1.5", "6"];
 pub const TICKERS: [&str; 12] =
     ["AAA", "BBB", "CCC", "DDD", "EEE", "FFF", "GGG", "HHH", "III", "JJJ", "KKK", "LLL"];
+pub const WIDE_TICKERS: [&str; 12] = ["GOOG", "GOOGL", "BT", "BTA", "A", "AA", "AAB", "B", "BA", "Z9", "Z", "GO"];
 
 pub fn recipe_strategy(cfg: GenCfg) -> impl Strategy<Value = Recipe> {
     let act = (0u8..cfg.max_secs.max(1), 0u8..100, proptest::array::uniform8(any::<u16>()))
@@ -244,7 +257,8 @@ pub fn build_from(r: &Recipe, cfg: &GenCfg, start: Option<NaiveDate>, prior: &[T
     let mut excluded = 0u64;
     let mut st: Vec<SecState> =
         (0..nsec).map(|_| SecState { hold: Rat::zero(), traded_today: false, evented_today: false }).collect();
-    let ticker = |i: usize| TICKERS[i % TICKERS.len()].to_string();
+    let wide = cfg.wide_tickers;
+    let ticker = move |i: usize| if wide { WIDE_TICKERS[i % WIDE_TICKERS.len()].to_string() } else { TICKERS[i % TICKERS.len()].to_string() };
     if !prior.is_empty() {
         if let Ok(agg) = model::aggregate(&ledger, &model::NoFx) {
             for (i, s) in st.iter_mut().enumerate() {
@@ -299,7 +313,7 @@ pub fn build_from(r: &Recipe, cfg: &GenCfg, start: Option<NaiveDate>, prior: &[T
             }
             match kind {
                 0..=64 => {
-                    if st[si].evented_today {
+                    if st[si].evented_today && !cfg.same_day_events {
                         excluded += 1;
                         continue;
                     }
@@ -357,7 +371,7 @@ pub fn build_from(r: &Recipe, cfg: &GenCfg, start: Option<NaiveDate>, prior: &[T
                     }
                 }
                 65..=77 => {
-                    if st[si].traded_today || st[si].evented_today {
+                    if (st[si].traded_today || st[si].evented_today) && !cfg.same_day_events {
                         excluded += 1;
                         continue;
                     }
@@ -378,7 +392,7 @@ pub fn build_from(r: &Recipe, cfg: &GenCfg, start: Option<NaiveDate>, prior: &[T
                     st[si].evented_today = true;
                 }
                 78..=89 => {
-                    if st[si].traded_today || st[si].evented_today {
+                    if (st[si].traded_today || st[si].evented_today) && !cfg.same_day_events {
                         excluded += 1;
                         continue;
                     }
@@ -439,7 +453,8 @@ pub fn build_from(r: &Recipe, cfg: &GenCfg, start: Option<NaiveDate>, prior: &[T
         // splits/events placed on a day where the same security later traded must go: re-check
         let traded: Vec<String> = day_buys.keys().chain(day_sells.keys()).map(|i| ticker(*i)).collect();
         let before = day_other.len();
-        day_other.retain(|t| matches!(t.op, Op::Div { .. }) || !traded.contains(&t.ticker));
+        let keep_all = cfg.same_day_events;
+        day_other.retain(|t| keep_all || matches!(t.op, Op::Div { .. }) || !traded.contains(&t.ticker));
         if day_other.len() != before {
             // undo holdings effect of dropped splits is complex; instead rebuild holdings below
             excluded += (before - day_other.len()) as u64;
